@@ -14,14 +14,22 @@ from droop.election import Election
 Election.prog = staticmethod(lambda m: None)
 jobs = json.load(sys.stdin)
 out = []
-for hist, (blt, opts) in jobs:
+for job in jobs:
+    hist, (blt, opts) = job[0], job[1]
+    reuse = job[2] if len(job) > 2 else []
     for hb, ho in hist:
         try:
             E = Election(ElectionProfile(data=hb), dict(ho)); E.count(); E.report(); E.dump(); E.json()
         except Exception as ex:
             pass
     try:
-        E = Election(ElectionProfile(data=blt), dict(opts)); E.count()
+        prof = ElectionProfile(data=blt)
+        for ro in reuse:            # the same profile OBJECT counted before, in other election objects
+            try:
+                E0 = Election(prof, dict(ro)); E0.count(); E0.report(); E0.dump(); E0.json()
+            except Exception as ex:
+                pass
+        E = Election(prof, dict(opts)); E.count()
         out.append([E.report(), E.dump(), E.json()])
     except Exception as ex:
         out.append(['EXC ' + type(ex).__name__, '', ''])
@@ -57,19 +65,24 @@ def run(chk, ctx):
                                        display=rng.choice([1, 7]))))
         if rng.random() < 0.3:
             hist.append(test)       # the same profile counted before, in another election object
-        jobs.append((hist, test))
+        reuse = []
+        if rng.random() < 0.5:      # ... and the same profile object counted before under other rules / the same rule
+            reuse = [rng.choice([dict(test[1]), cd.gen_options(rng), dict(rule=rng.choice(cd.STATUTORY))]) for _ in range(rng.randint(1, 2))]
+            for ro in reuse:
+                if ro.get('arithmetic') == 'rational' and ro['rule'] in ('meek', 'warren'): ro['arithmetic'] = 'guarded'
+        jobs.append((hist, test, reuse))
     # each job in its own fresh process for the baseline, all histories in one long-lived process
     fresh = []
     B = 40
     for k in range(0, len(jobs), B):
-        fresh += [run_jobs([([], t)])[0] for _, t in jobs[k:k + B]] if not quick or True else []
+        fresh += [run_jobs([([], j[1])])[0] for j in jobs[k:k + B]] if not quick or True else []
     after = run_jobs(jobs)     # one process: every job also inherits the state left by all earlier jobs
-    for (hist, test), f, a in zip(jobs, fresh, after):
+    for (hist, test, reuse), f, a in zip(jobs, fresh, after):
         chk.count(); chk.nontrivial(('hist', test[1]['rule'], test[1].get('arithmetic'), len(hist), f[0][:3]))
         if f != a:
             which = [nm for nm, x, y in zip(('report', 'dump', 'json'), f, a) if x != y]
             chk.violation("the record of a count depends on the elections counted before it in the process",
-                          dict(blt=test[0], options=test[1], history=hist, differs=which,
+                          dict(blt=test[0], options=test[1], history=hist, same_profile_object_counted_before_with=reuse, differs=which,
                                first_difference=cd.first_diff(f[0], a[0])),
                           signature=dict(kind='c20-history', rule=test[1]['rule']))
     chk.cov['histories'] = len(jobs)
